@@ -2,7 +2,7 @@
 import json, os, shutil
 import vlib
 
-OPS = {'C08': ('observeon', 'subscribeon', 'tochannel'), 'C17': ('tochannel', 'fromchannel', 'tochannelsync')}
+OPS = {'C07': ('observeon', 'subscribeon'), 'C08': ('observeon', 'subscribeon', 'tochannel'), 'C17': ('tochannel', 'fromchannel', 'tochannelsync')}
 
 
 def model_part(rep):
